@@ -79,7 +79,9 @@ class Sched:
 
 # ------------------------------------------------------------------ CBMC
 CBMC_CHECKS = ["--bounds-check", "--pointer-check", "--div-by-zero-check", "--signed-overflow-check",
-               "--undefined-shift-check", "--pointer-overflow-check", "--conversion-check"]
+               "--undefined-shift-check", "--pointer-overflow-check"]
+# (--conversion-check is deliberately off: it flags the well-defined truncating casts
+#  `(unsigned char)(b1 << 2)` of print_target_line_number, which UBSan rightly does not.)
 RES_RE = re.compile(r"^\[(?P<id>[^\]]+)\]\s+(?:line \d+\s+)?(?P<desc>.*):\s+(?P<st>SUCCESS|FAILURE|UNKNOWN|ERROR)\s*$")
 
 def parse_cbmc(out):
